@@ -437,6 +437,33 @@ def rule_frame_identity(ck):
     ck.ob("mpt.step_frame_identity", "step_in/compares-start-and-current-cfa", n >= 2 and bool(eq), f"{n} CFA reads, {len(eq)} comparisons", si.loc())
 
 
+def rule_next_completion(ck):
+    """`next` whose activation returned: the stop at the return address is in the middle of the caller's statement"""
+    prog = ck.prog
+    ck.rule("mpt.next_completion", "step_over_any: after the temporary breakpoints are gone, a stop exactly at the return address of the stepped activation (pc == Debugee::return_addr taken before the step) that is not the first address of a line row is completed by step_in — decided by comparing the pc with that return address, not by asking whether the pc left the function's ranges (the caller of a recursive activation is the same function)")
+    f = prog.method(DBG, "step_over_any")
+    ck.saw(f)
+    si = [c for c in f.calls() if c.name.endswith("::step_in")]
+    if not ck.ob("mpt.next_completion", "step_over_any/has-completion-step", len(si) == 1, f"{len(si)} step_in calls", f.loc()):
+        return
+    c = si[0]
+    guards = []
+    for b, blk in enumerate(f.blocks):
+        t = blk["term"]
+        if t["t"] == "switch" and f.dominates(b, c.bb):
+            succ = f.succ(b)
+            if any(c.bb not in f.reach_from([s_]) for s_ in succ):
+                guards.append((b, expr_str(expr_of(f, t["discr"], depth=14), 10)))
+    ra = [g for b, g in guards if re.match(r"^(eq|ne)\(", g) and "return_addr(" in g and "location(" in g and ".pc" in g]
+    ck.ob("mpt.next_completion", "step_over_any/completion-decided-by-pc==return-address", len(ra) == 1, f"guards of the completion step: {[g[:60] for b, g in guards if g.startswith(('eq(', 'ne(', 'in_range', 'not('))]}", f.loc(c.bb), what="`next` out of a recursive activation ends at the raw return address, in the middle of the caller's statement")
+    rows = [g for b, g in guards if re.match(r"^(eq|ne)\(", g) and "find_place_from_pc(" in g and ".address" in g and ".global_pc" in g]
+    ck.ob("mpt.next_completion", "step_over_any/completion-skipped-only-at-a-row-start", len(rows) == 1, "", f.loc(c.bb))
+    # the return address is the one taken before the debuggee was resumed
+    rcs = [x for x in f.calls() if x.name.endswith("Debugee::return_addr")]
+    conts = sorted(b for b in range(len(f.blocks)) if b in prog.blocks_reaching(f, {"debugger::Debugger::continue_execution"}, depth=2))
+    ck.ob("mpt.next_completion", "step_over_any/return-address-taken-before-the-step", len(rcs) == 1 and bool(conts) and all(f.dominates(rcs[0].bb, b) for b in conts), f"resuming blocks {conts}", f.loc())
+
+
 def run(ck):
     S = summaries(ck.prog)
     rule_reanchor(ck, S)
@@ -444,4 +471,5 @@ def run(ck):
     rule_interrupts(ck)
     rule_shapes(ck)
     rule_frame_identity(ck)
+    rule_next_completion(ck)
     rule_epilogue_skip(ck)
